@@ -962,12 +962,27 @@ namespace
                         }
                     }
                     bool neg = false;
-                    while (auto* U = dyn_cast<UnaryOperator>(E))
+                    for (;;)
                     {
-                        if (U->getOpcode() != UO_LNot)
-                            break;
-                        neg = !neg;
-                        E = strip(U->getSubExpr());
+                        if (auto* U = dyn_cast<UnaryOperator>(E))
+                        {
+                            if (U->getOpcode() != UO_LNot)
+                                break;
+                            neg = !neg;
+                            E = strip(U->getSubExpr());
+                            continue;
+                        }
+                        // contextual conversion to bool of a smart pointer / std::function / optional
+                        if (auto* MC = dyn_cast<CXXMemberCallExpr>(E))
+                        {
+                            if (MC->getMethodDecl() && isa<CXXConversionDecl>(MC->getMethodDecl()) && MC->getImplicitObjectArgument())
+                            {
+                                E = strip(MC->getImplicitObjectArgument());
+                                T["conv"] = true;
+                                continue;
+                            }
+                        }
+                        break;
                     }
                     T["neg"] = neg;
                     T["core"] = refOf(E);
